@@ -151,7 +151,12 @@ struct Script
             case 12: return DeviceState_Closed;
             case 13: return want == DeviceState_Running ? DeviceState_AwaitingConfiguration : DeviceState_Running;
             case 14: return DeviceState_Armed;
-            case 15: return (bits >> 15) & 1 ? DeviceState_AwaitingConfiguration : (DeviceState)DeviceStateCount;
+            case 15: {
+                // out-of-range codes, also ones whose low bits look like a legal state (11, 0x103 ~ Running;
+                // 0x102 ~ Armed; 8 ~ Closed; -1)
+                static const int odd[8] = { DeviceState_AwaitingConfiguration, DeviceStateCount, 11, 0x103, 0x102, 8, -1, DeviceState_AwaitingConfiguration };
+                return (DeviceState)odd[(bits >> 15) & 7];
+            }
             default: return want;
         }
     }
@@ -488,10 +493,19 @@ check_released(Ctx& x, const char* where)
             p = now.data();
             for (size_t k = 0; k < d->snapshot.size(); ++k)
                 if (p[k] != d->snapshot[k]) {
+                    // (which field it is, is derived without offsetof: the struct layout belongs to the code under
+                    // test and may change, e.g. the state becoming a bit-field)
                     const char* field = "other";
-                    size_t so = d->is_cam ? offsetof(Camera, state) : offsetof(Storage, state);
-                    if (k >= so && k < so + sizeof(DeviceState))
-                        field = "state";
+                    {
+                        MockDev probe;
+                        memset(&probe.u, 0, sizeof probe.u);
+                        if (d->is_cam)
+                            probe.u.cam.state = (DeviceState)7;
+                        else
+                            probe.u.st.state = (DeviceState)7;
+                        if (((const uint8_t*)&probe.u)[k])
+                            field = "state";
+                    }
                     x.c.fail("C11", "write-after-close", field, "%s: released device #%d (%s) was written at byte offset %zu (field: %s)", where,
                              d->serial, d->is_cam ? "camera" : "storage", k, field);
                     return;
